@@ -41,7 +41,7 @@ tvars == <<tid, l, prev, bad, resDone>>
 
 Kinds == <<"total", "connect", "sock_connect", "sock_read">>
 Rng(q) == {q[i] : i \in 1..Len(q)}
-CeilS(t) == IF t % 1000 = 0 THEN t ELSE t + (1000 - t % 1000)
+CeilS(t) == IF (t % 1000) = 0 THEN t ELSE t + (1000 - (t % 1000))
 Deadline(ref, d, thr) == IF d >= thr THEN CeilS(ref + d) ELSE ref + d
 Ended(st) == st \notin {"new", "pending"}
 Followers(o) == {q \in DOMAIN o.st : q \notin {"v", "b"}}
